@@ -1,5 +1,5 @@
 """C18 — an alias is indistinguishable from the variable it names (fsic.extensions.AliasMixin)."""
-import itertools, json, os, signal, subprocess, sys, time, warnings
+import itertools, json, os, re, signal, subprocess, sys, time, warnings
 
 import numpy as np
 
@@ -185,8 +185,8 @@ _SAMPLED = {}
 
 
 def sample_once(part, every, count, payload):
-    """At most two written-out samples per part (the framework keeps the first six overall)."""
-    if count % every == every // 2 and _SAMPLED.get(part, 0) < (1 if part in 'ABF' else 2):
+    """At most one written-out sample per part (the framework keeps the first six overall)."""
+    if count % every == every // 2 and _SAMPLED.get(part, 0) < 1:
         _SAMPLED[part] = _SAMPLED.get(part, 0) + 1
         return payload
     return None
@@ -292,10 +292,18 @@ def check_shorten(ctx, rep, maps, names, label, budget=None):
         outs = ctx.drive([line('alias_shorten', {'m': c['m'], 'names': c['names']}) for c in cases])
         for c, a, b in zip(cases, outs, impl):
             a2 = a.split('|', 1)[1] if '|' in a else a
-            if a2 != b:
+            if unordered_items(a2) != unordered_items(b):
                 rep.disagree('AliasMixin.__init__ shortening / _resolve_alias: model != impl', c, a2, b)
             elif '|' in a:
                 rep.dist[f'{label}:rounds{a.split("|", 1)[0]}'] += 1
+
+
+def unordered_items(s):
+    """`items|resolutions` with the dict items sorted: the order of a dict is not an observable of the property."""
+    if '|' not in s:
+        return s
+    items, res = s.split('|', 1)
+    return ','.join(sorted(items.split(','))) + '|' + res
 
 
 def _chain(m, k):
@@ -429,20 +437,18 @@ def check_prefcheck(ctx, rep, maps, prefs, budget=None):
                     try:
                         inst.to_dataframe(use_aliases=True)
                         rejected = False
-                    except ValueError:
+                    except Exception:  # noqa: BLE001  (the class of the rejection is not constrained)
                         rejected = True
-                    except Exception:  # noqa: BLE001
-                        rejected = False
                     if not rejected:
                         rep.violate('ambiguous-preferences-accepted', f'PREFERRED_NAMES={pref} names one variable twice '
-                                    f'(ALIASES={m}) but neither the constructor nor the export raises ValueError', case)
+                                    f'(ALIASES={m}) but neither the constructor nor the export raises', case)
                 if not amb and inst is None and err != 'Hang':
                     rep.violate('unambiguous-preferences-rejected', f'PREFERRED_NAMES={pref} is unambiguous for '
                                 f'ALIASES={m} but the constructor raised {err}', case)
     if not ctx.oracle_only and cases:
         outs = ctx.drive([line('alias_prefcheck', {'m': c['m'], 'pref': c['pref']}) for c in cases])
         for c, a, b in zip(cases, outs, impl):
-            if a != b:
+            if (a == 'ok') != (b == 'ok'):
                 rep.disagree('AliasMixin.__init__ PREFERRED_NAMES check: model != impl', c, a, b)
 
 
@@ -467,14 +473,14 @@ def export_oracle(rep, case, m, pref, base, out, err, declared_pref_valid):
         aliases_of.setdefault(chain_end(m, k), []).append(k)
     amb_aliases = any(len([p for p in set(pref) if p in m and chain_end(m, p) == t]) > 1 for t in aliases_of)
     if out is None:
-        if err == 'ValueError' and pref_ambiguous(m, pref):
+        if pref_ambiguous(m, pref):
             return 'rejected'
         rep.violate('export-raises', f'to_dataframe(use_aliases=True) raised {err} although the preferences {pref} '
                     f'are unambiguous (ALIASES={m})', case)
         return 'raised'
     if amb_aliases:
         rep.violate('export-ambiguous-not-rejected', f'preferred_names={pref} holds two aliases of one variable '
-                    f'(ALIASES={m}) but the export did not raise ValueError', case)
+                    f'(ALIASES={m}) but the export did not raise', case)
         return 'accepted-ambiguous'
     if out.shape != base.shape or list(out.index) != list(base.index):
         rep.violate('export-shape', f'use_aliases changed the shape/index: {base.shape} -> {out.shape}', case)
@@ -510,6 +516,27 @@ def export_oracle(rep, case, m, pref, base, out, err, declared_pref_valid):
                             f'declared, yet the column is called {new[labels.index(t)]!r}', case)
                 return 'unused'
     return 'ok'
+
+
+def same_columns(m, pref, cols, model_out, impl_out):
+    """Model vs implementation on the exported labels.  Where the property is silent - a variable with several
+    aliases none of which (nor its own name) is preferred - any of its names is accepted; a raise is compared as a
+    raise, whatever its class."""
+    model_raises = model_out in ('ValueError', 'diverges')
+    impl_raises = impl_out.startswith('!')
+    if model_raises or impl_raises:
+        return model_raises and impl_raises and model_out == 'ValueError'
+    a, b = model_out.split(','), impl_out.split(',')
+    if len(a) != len(b) or len(a) != len(cols):
+        return False
+    for old, x, y in zip(cols, a, b):
+        if x == y:
+            continue
+        names = [k for k in m if chain_end(m, k) == old]
+        free = len(names) > 1 and not any(chain_end(m, p) == old for p in pref)
+        if not (free and y in names + [old]):
+            return False
+    return True
 
 
 def run_export(inst):
@@ -571,11 +598,11 @@ def check_export_stub(ctx, rep, rng, n_random, budget=None):
                      'part': 'C', 'ALIASES': m, 'PREFERRED_NAMES': pref, 'preferred_names_at_export': eff,
                      'columns': list(map(str, out.columns)) if out is not None else xerr}))
         cases.append({'m': items, 'pref': eff, 'cols': [str(c) for c in base.columns], 'case': case})
-        impl.append(','.join(str(c) for c in out.columns) if out is not None else xerr)
+        impl.append(','.join(str(c) for c in out.columns) if out is not None else '!' + str(xerr))
     if not ctx.oracle_only and cases:
         outs = ctx.drive([line('alias_rename', {'m': c['m'], 'pref': c['pref'], 'cols': c['cols']}) for c in cases])
         for c, a, b in zip(cases, outs, impl):
-            if a != b:
+            if not same_columns(dict(c['m']), c['pref'], c['cols'], a, b):
                 rep.disagree('AliasMixin.to_dataframe(use_aliases=True) columns: model != impl', c['case'], a, b)
 
 
@@ -730,6 +757,19 @@ def run_history_impl(case, budget, rep):
     return ' '.join(res) + '|' + series + '|' + attrs
 
 
+_ERR = re.compile(r'\b(?:Other:)?[A-Za-z]*(?:Error|Exception)\b')
+
+
+def lenient_history(s):
+    """Which class an access to an unknown name / an ill-shaped value raises is the container's business (C09),
+    not the mixin's: compare 'raised' only; ad-hoc attributes as a set."""
+    s = _ERR.sub('ERR', s)
+    parts = s.split('|')
+    if len(parts) == 3:
+        parts[2] = ';'.join(sorted(parts[2].split(';')))
+    return '|'.join(parts)
+
+
 def check_histories(ctx, rep, rng, count, budget=None):
     budget = budget or Budget()
     cases, impl = [], []
@@ -751,7 +791,7 @@ def check_histories(ctx, rep, rng, count, budget=None):
     if not ctx.oracle_only and cases:
         outs = ctx.drive([line('alias_history', {k: v for k, v in c.items() if k != 'part'}) for c in cases])
         for c, a, b in zip(cases, outs, impl):
-            if a != b:
+            if lenient_history(a) != lenient_history(b):
                 rep.disagree('wrapped accessors over a history: model != impl', c, a, b)
 
 
@@ -810,7 +850,12 @@ def fingerprint(x):
     return ('py', type(x).__name__, repr(x))
 
 
-def full_state(obj, extra=()):
+def full_state(obj, extra=(), ref=None):
+    """Everything the twin comparison looks at.  With `ref` (the twin) given, attributes of `obj` that the twin
+    does not have and that hold no array are the mixin's own bookkeeping (like `aliases`) and are left out."""
+    if ref is not None:
+        extra = tuple(extra) + tuple(k for k, v in obj.__dict__.items()
+                                     if k not in ref.__dict__ and not isinstance(v, np.ndarray) and k not in obj.index)
     st = {'index': list(obj.index), 'names': list(obj.names), 'span': repr(obj.span),
           'keys': sorted(k for k in obj.__dict__ if k not in extra)}
     for nm in obj.index:
@@ -1001,9 +1046,7 @@ def run_twin_case(ctx, rep, case, budget, tcases=None):
             try:
                 a.to_dataframe(use_aliases=True)
                 rep.violate('ambiguous-preferences-accepted', f'PREFERRED_NAMES={pref} names one variable twice '
-                            f'(ALIASES={m}) but neither the constructor nor the export raises ValueError', jc)
-            except ValueError:
-                pass
+                            f'(ALIASES={m}) but neither the constructor nor the export raises', jc)
             except Exception:  # noqa: BLE001
                 pass
         return 'ambiguous-preferences'
@@ -1016,7 +1059,7 @@ def run_twin_case(ctx, rep, case, budget, tcases=None):
     extra = ('aliases', 'preferred_names')
     if not {'aliases', 'preferred_names'} <= set(a.__dict__) or any(k in a.index for k in extra):
         pass
-    sa, st = full_state(a, extra), full_state(t)
+    sa, st = full_state(a, extra, t), full_state(t)
     if sa != st:
         rep.violate('twin-diverges:constructor', 'state after construction differs from the canonical twin: ' + diff_state(sa, st), jc)
         return 'ctor'
@@ -1027,7 +1070,7 @@ def run_twin_case(ctx, rep, case, budget, tcases=None):
             rep.violate('twin-diverges:' + op['k'], f'op {i} {op["k"]} through {op["names"]} gave {short(ra)}; the twin '
                         f'through {canon_names(op["names"])} gave {short(rt)} (ALIASES={m})', jc)
             return 'op'
-        sa, st = full_state(a, extra), full_state(t)
+        sa, st = full_state(a, extra, t), full_state(t)
         if sa != st:
             key = 'alias-adds-storage' if (sa['index'] != st['index'] or sa['keys'] != st['keys']) else 'twin-diverges:' + op['k']
             rep.violate(key, f'after op {i} {op["k"]} through {op["names"]} the state differs from the twin: '
@@ -1044,7 +1087,7 @@ def run_twin_case(ctx, rep, case, budget, tcases=None):
     regime = export_oracle(rep, jc, m, pref, base, out, xerr, True)
     if tcases is not None:
         tcases.append(({'m': case['m'], 'pref': pref, 'cols': [str(c) for c in base.columns]},
-                       ','.join(str(c) for c in out.columns) if out is not None else xerr, jc))
+                       ','.join(str(c) for c in out.columns) if out is not None else '!' + str(xerr), jc))
     return 'export-' + regime
 
 
@@ -1080,7 +1123,7 @@ def check_twins(ctx, rep, rng, count, budget=None):
     if not ctx.oracle_only and tcases:
         outs = ctx.drive([line('alias_rename', c) for c, _, _ in tcases])
         for (c, impl, jc), a in zip(tcases, outs):
-            if a != impl:
+            if not same_columns(dict(c['m']), c['pref'], c['cols'], a, impl):
                 rep.disagree('AliasMixin.to_dataframe(use_aliases=True) columns (real model): model != impl', jc, a, impl)
 
 
